@@ -9,16 +9,18 @@ import PyTRS.Gen.Patterns
 import PyTRS.DriverOps
 open PyTRS
 
-partial def loop (h : IO.FS.Stream) (out : IO.FS.Stream) : IO Unit := do
+def chomp (s : String) : String :=
+  String.ofList ((s.toList.reverse.dropWhile (fun c => c == '\n' || c == '\r')).reverse)
+
+partial def loop (h : IO.FS.Stream) (out : IO.FS.Stream) (w : PyTRS.World.World) : IO Unit := do
   let line ← h.getLine
   if line.isEmpty then return ()
-  let l := (line.dropRightWhile (fun c => c == '\n' || c == '\r'))
-  let resp := Driver.handle (l.splitOn "\t")
+  let (w', resp) := Driver.handleW w ((chomp line).splitOn "\t")
   out.putStrLn resp
-  loop h out
+  loop h out w'
 
 def main : IO Unit := do
   let stdin ← IO.getStdin
   let stdout ← IO.getStdout
-  loop stdin stdout
+  loop stdin stdout {}
   stdout.flush
